@@ -80,6 +80,8 @@ func modA(k int32) []byte {
 	// peek(addr): the exporter's view of its memory, which importers share and may grow after the
 	// exporter is closed
 	m.AddFunc(i32, i32, nil, (&wasmb.Code{}).LocalGet(0).I32Load(0).B, "peek")
+	// poke(v): mem[300] = v (what inc adds)
+	m.AddFunc(i32, nil, nil, (&wasmb.Code{}).I32Const(300).LocalGet(0).I32Store(0).B, "poke")
 	m.Mem = &wasmb.Limits{Min: 1, Max: 12, HasMax: true}
 	m.Exports = append(m.Exports, wasmb.Export{Name: "mem", Kind: wasmb.KindMemory, Idx: 0})
 	m.Datas = []wasmb.Data{{Passive: true, Bytes: []byte{byte(k), 0, 0, 0}}}
@@ -149,13 +151,14 @@ func modD() []byte {
 }
 
 type instance struct {
-	kind     byte
-	mod      api.Module
-	compiled wazero.CompiledModule // nil when created with Instantiate
-	closed   bool
-	dropped  bool
-	definer  int // for B/D: index of the A they import from
-	k        int32
+	kind           byte
+	mod            api.Module
+	compiled       wazero.CompiledModule // nil when created with Instantiate
+	compiledClosed bool
+	closed         bool
+	dropped        bool
+	definer        int // for B/D: index of the A they import from
+	k              int32
 	// C: what its slots/global hold: index of definer A, -1 null
 	slots [3]int
 	glob  int
@@ -182,8 +185,9 @@ type runner struct {
 	twin            *side
 	curA            int // index of the open A registered as "a" (-1 none)
 	everA           bool
-	poison          bool // custom allocator whose Free poisons the memory
-	freed           int  // buffers freed so far (only the real side ever closes anything mid-run)
+	poison          bool         // custom allocator whose Free poisons the memory
+	freed           int          // buffers freed so far (only the real side ever closes anything mid-run)
+	extra           []api.Module // anonymous second instances of the definer's compiled module
 	followUp        []int
 	leftover        map[int]int32 // table slot -> multiplier of the function a FAILED importer left there
 	forceImporter   bool
@@ -397,6 +401,16 @@ func (r *runner) instantiateOn(s *side, kind byte, k int32, via int, rtIdx int) 
 	return in, nil
 }
 
+// firstA: index of the (only) named definer instance, -1 if none yet.
+func (r *runner) firstA() int {
+	for i, in := range r.real.insts {
+		if in.kind == 'A' {
+			return i
+		}
+	}
+	return -1
+}
+
 func (r *runner) pickInst(kinds string, needOpen bool) int {
 	var c []int
 	for i, in := range r.real.insts {
@@ -519,7 +533,27 @@ func (r *runner) step(shared bool) {
 			kind = 'A'
 		}
 		if kind == 'A' && r.everA {
-			kind = 'C' // one definer per run: the twin never closes it, so its name stays taken there
+			// one NAMED definer per run (the twin never closes it, so its name stays taken there); but the
+			// definer's compiled module may be instantiated AGAIN, anonymously, and the new instance's state
+			// made different: whatever still runs the first instance's functions must keep seeing ITS state
+			if a := r.firstA(); a >= 0 && r.real.insts[a].compiled != nil && !r.real.insts[a].compiledClosed && !r.cacheClosed && t.Chance(1, 2) {
+				ra, ta := r.real.insts[a], r.twin.insts[a]
+				rm, err := r.real.rts[ra.rt].InstantiateModule(r.ctx, ra.compiled, wazero.NewModuleConfig().WithName(""))
+				tm, terr := r.twin.rts[ta.rt].InstantiateModule(r.ctx, ta.compiled, wazero.NewModuleConfig().WithName(""))
+				r.log("instantiate the definer's compiled module again, anonymously -> %v", err)
+				if err != nil || terr != nil {
+					if (err == nil) != (terr == nil) {
+						r.res.Fail("behaviour-changed", "re-instantiating the definer's compiled module: real err=%v twin err=%v", err, terr)
+					}
+					return
+				}
+				rm.ExportedFunction("poke").Call(r.ctx, 77)
+				tm.ExportedFunction("poke").Call(r.ctx, 77)
+				r.extra = append(r.extra, rm, tm) // kept open to the end
+				r.res.Stat("probe.definer_compiled_module_instantiated_again", 1)
+				return
+			}
+			kind = 'C'
 		}
 		if len(r.real.insts) >= 7 || r.cacheClosed {
 			return // (new compilations after closing the shared cache are outside the property)
@@ -670,6 +704,7 @@ func (r *runner) step(shared bool) {
 		}
 		i := c[t.Choose(len(c))]
 		err := r.real.insts[i].compiled.Close(r.ctx)
+		r.real.insts[i].compiledClosed = true
 		r.closedOrDropped = true
 		r.res.Stat("fault.close_compiled", 1)
 		r.log("closeCompiled #%d err=%v", i, err)
